@@ -4,7 +4,7 @@
    also what is extracted and run against the real C++. *)
 From Coq Require Import ZArith List Bool.
 From MomoCommon Require Import GenPrelude.
-From C17 Require Gen_Leaves Leaves_Proofs SorterSearch Search_Proofs Find_Proofs IsSorted_Proofs Checker Instance.
+From C17 Require Gen_Leaves Leaves_Proofs SorterSearch SorterSort Search_Proofs Find_Proofs IsSorted_Proofs Sort_Proofs Checker Instance.
 Import ListNotations.
 Local Open Scope Z_scope.
 
@@ -119,3 +119,42 @@ Theorem C17_nonvacuous_find :
   Instance.Find (Instance.len Instance.ex_arr) (Instance.hash_of Instance.ex_arr) (Instance.item_of Instance.ex_arr) Z.eqb 3 2 = Ok (2, true).
 Proof. exact Instance.ex_find. Qed.
 Print Assumptions C17_nonvacuous_find.
+
+(* ---------------- the SORT half (model SorterSort.v; tied to the real code by swap trace + final arrangement) ---------------- *)
+
+(* HashSorter::pvGroup on any sub-array, any equivalence equalFunc: terminates, every iterSwapper call is inside the
+   sub-array, the result is a permutation that leaves everything outside the sub-array untouched (relR), and afterwards
+   equal items are contiguous in the sub-array. *)
+Theorem C17_group_makes_equal_contiguous : forall eqf l q cnt, Instance.equivalence eqf -> 0 <= q -> 0 <= cnt ->
+  q + cnt <= SorterSort.alen l ->
+  exists l', SorterSort.pvGroup SorterSort.swap eqf l q cnt = Ok l' /\ Sort_Proofs.relR q (q + cnt) l l' /\
+    Sort_Proofs.contigL eqf l' q (q + cnt).
+Proof. exact Instance.Group_makes_equal_contiguous. Qed.
+Print Assumptions C17_group_makes_equal_contiguous.
+
+(* RadixSorter::pvSelectionSort on any sub-array with any group callback that fulfils the callback contract: terminates,
+   permutation of the sub-array only, codes non-decreasing, equal items contiguous inside every run of equal codes. *)
+Theorem C17_selection_sort_perm_sorted : forall eqf grp l p cnt, Instance.equivalence eqf ->
+  (forall l q c, 0 <= q -> 0 <= c -> q + c <= SorterSort.alen l ->
+     exists l', grp l q c = Ok l' /\ Sort_Proofs.relR q (q + c) l l' /\ Sort_Proofs.contigL eqf l' q (q + c)) ->
+  0 <= p -> 0 < cnt -> p + cnt <= SorterSort.alen l ->
+  exists l', SorterSort.pvSelectionSort SorterSort.swap grp l p cnt = Ok l' /\ Sort_Proofs.relR p (p + cnt) l l' /\
+    Sort_Proofs.sortedR l' p (p + cnt) /\ Sort_Proofs.groupedR eqf l' p (p + cnt).
+Proof. exact Instance.SelectionSort_perm_sorted. Qed.
+Print Assumptions C17_selection_sort_perm_sorted.
+
+(* HashSorter::Sort / SortPrehashed (RadixSorter<8>, 64-bit codes) on at most 32 items (the selection-sort range):
+   terminates, output = permutation of the (hash,item) pairs (hash array permuted identically) and IsSorted holds on it. *)
+Theorem C17_hashsort_small_output_satisfies_is_sorted : forall eqf l, Instance.equivalence eqf -> SorterSort.alen l <= 32 ->
+  exists l', Instance.HashSort eqf l = Ok l' /\ Permutation.Permutation l l' /\
+    Instance.IsSorted (SorterSort.alen l') (SorterSort.code l') (SorterSort.itm l') eqf = Ok true.
+Proof. exact Instance.HashSort_small_output_satisfies_is_sorted. Qed.
+Print Assumptions C17_hashsort_small_output_satisfies_is_sorted.
+
+(* PARTIAL: the complete pvSort/pvRadixSort recursion (counting pass, prefix sums, cycle-leader permutation, recursion on
+   shift, singleCode/singleRadix shortcuts, group callbacks) for every radix size R and code width W: IF the model run
+   returns Ok THEN the output is a permutation of the input.  Totality and sortedness of the radix path are not proved. *)
+Theorem C17_radix_sort_perm_partial : forall eqf R g W l l',
+  SorterSort.RadixSortG SorterSort.swap eqf R g W l = Ok l' -> Permutation.Permutation l l' /\ SorterSort.alen l' = SorterSort.alen l.
+Proof. exact Instance.RadixSort_perm_partial. Qed.
+Print Assumptions C17_radix_sort_perm_partial.
